@@ -57,9 +57,9 @@ extern "C" void h_nest0() { nester(0); }
 extern "C" void h_nest1() { nester(1); }
 extern "C" void h_join0() { joiner(0); }
 extern "C" void h_join1() { joiner(1); }
-static void fin(int nj) {
+static void fin(int nn, int nj) {
   for (int j = 0; j < nj; ++j) VF_ASSERT(join_done[j] == 1, "a started join did not complete exactly once");
-  for (int i = 0; i < 2; ++i) {
+  for (int i = 0; i < nn; ++i) {
     VF_ASSERT(n_val[i] + n_err[i] + n_done[i] == 1, "nested operation did not complete exactly once");
     if (closed_before[i]) VF_ASSERT(n_done[i] == 1 && !vf::g_leaf_started[i], "work nested after the scope was joined was started");
     if (!vf::g_leaf_started[i]) VF_ASSERT(n_done[i] == 1, "unadmitted nested work must complete with done");
@@ -71,5 +71,6 @@ static void fin(int nj) {
   if (!vf::g_leaf_started[0] && !vf::g_leaf_started[1]) vf_witness(3);
   scope->~async_scope();
 }
-extern "C" void h_final1() { fin(1); }
-extern "C" void h_final2() { fin(2); }
+extern "C" void h_final21() { fin(2, 1); }
+extern "C" void h_final12() { fin(1, 2); }
+extern "C" void h_final11() { fin(1, 1); }
